@@ -51,7 +51,7 @@ func StressHistory(rng *rand.Rand, all []evt.Driver, record bool) (w *World, pla
 		if !ok {
 			return nil
 		}
-		return &Reg{T: t, Class: c, Ctx: ctxAware, Once: rng.IntN(5) == 0, Async: rng.IntN(5) == 0, Filter: rng.IntN(4) == 0}
+		return &Reg{T: t, Class: c, Ctx: ctxAware, Once: rng.IntN(5) == 0, Async: rng.IntN(5) == 0, Filter: rng.IntN(4) == 0, Seq: rng.IntN(5) == 0}
 	}
 	G := 2 + rng.IntN(3)
 	owned := make([][]*Reg, G)
